@@ -232,6 +232,7 @@ fn generate(rng: &mut Rng) -> C15Sc {
             clients,
             stop_at_ns: None,
             stop_before: false,
+            yields_before_stop: 0,
             cap_ns: t + secs(60),
         },
         meta,
